@@ -200,6 +200,34 @@ func checkC16(r *Run) {
 			}
 		}
 	})
+	// through the header parser with white space before the colon, and with names that are a table name plus bytes a
+	// "trim" might strip (VT, FF, NUL, NBSP, NEL, EM SPACE, ideographic space, BOM): accepted names keep the lookup's type
+	affixes := []string{"\x0b", "\x0c", "\x00", "\x1f", "\x7f", "\xc2\xa0", "\xc2\x85", "\xe2\x80\x83", "\xe3\x80\x80", "\xef\xbb\xbf", "\xa0", "\x85"}
+	parallelFor(r, len(names), func(c *enumCtx, i int) {
+		for _, base := range [][]byte{names[i], bytes.ToUpper(names[i])} {
+			var cands [][]byte
+			cands = append(cands, base)
+			for _, a := range affixes {
+				cands = append(cands, append([]byte(a), base...), append(append([]byte(nil), base...), a...))
+			}
+			for _, n := range cands {
+				for _, sep := range []string{":", " :", "\t:", " \t :", "\r\n :"} {
+					line := append(append(append([]byte(nil), n...), sep...), " v\r\nX"...)
+					var h sipsp.Hdr
+					_, e := sipsp.ParseHdrLine(line, 0, &h, nil)
+					c.st.Evals++
+					c.st.Transitions++
+					if e != 0 {
+						continue // the parser may refuse the name; if it accepts it, the type is the lookup's
+					}
+					if want := refHdrType(h.Name.Get(line)); h.Type != want || !bytes.Equal(h.Name.Get(line), n) {
+						cs := mkCase("C16line", "ParseHdrLine", nil, line, nil)
+						r.Col.add(&Violation{Property: "C16", Site: "ParseHdrLine", Rule: "parser-assigns-table-type", Class: "ws-before-colon/" + nameClass(n), Detail: fmt.Sprintf("%q: name %q type %v want %v", line, h.Name.Get(line), h.Type, want), Case: cs})
+					}
+				}
+			}
+		}
+	})
 	// method <-> name round trip
 	for m := sipsp.MUndef + 1; m < sipsp.MOther; m++ {
 		if got := sipsp.GetMethodNo(m.Name()); got != m {
@@ -265,6 +293,18 @@ func mthName(m sipsp.SIPMethod) string {
 
 func init() {
 	// replays the whole append sequence (the damage, if any, is to process-wide tables and stays)
+	replayers["C16line"] = func(prop string, c *Case) []*Violation {
+		line := c.input()
+		var h sipsp.Hdr
+		if _, e := sipsp.ParseHdrLine(line, 0, &h, nil); e != 0 {
+			return nil
+		}
+		n := line[:bytes.IndexAny(line, ": \t\r")]
+		if want := refHdrType(h.Name.Get(line)); h.Type != want || !bytes.Equal(h.Name.Get(line), n) {
+			return []*Violation{{Property: prop, Site: "ParseHdrLine", Rule: "parser-assigns-table-type", Class: "ws-before-colon/" + nameClass(n), Detail: fmt.Sprintf("name %q type %v want %v", h.Name.Get(line), h.Type, want), Case: c}}
+		}
+		return nil
+	}
 	replayers["C16append"] = func(prop string, c *Case) []*Violation {
 		var vs []*Violation
 		for m := sipsp.MUndef + 1; m < sipsp.MOther; m++ {
